@@ -459,7 +459,7 @@ func judge(h *History, rec *Record) *verdict {
 				if !h.exchange() {
 					queue, queueErr, queueFinished = append(queue, id.Data...), id.Err, !id.HasCur
 				}
-			} else if !h.exchange() && id.Err != nil && len(id.Data) > 0 && t.Expect != MustReject {
+			} else if !h.exchange() && id.Err != nil && len(id.Data) > 0 && t.Expect != MustReject && errMatches(c.Err, id.Err) {
 				v.bad("producer:data-before-exception-dropped:open",
 					fmt.Sprintf("the init response held %d data batch(es) of completed turns before the exception; OpenProducer returned only the error", len(id.Data)), t.Idx)
 			}
@@ -538,7 +538,7 @@ func judge(h *History, rec *Record) *verdict {
 					if i > 0 {
 						v.class("producer.multi-fetch-call")
 					}
-				} else if id.Err != nil && len(id.Data) > 0 && t.Expect != MustReject && id.Reject == "" {
+				} else if id.Err != nil && len(id.Data) > 0 && t.Expect != MustReject && id.Reject == "" && errMatches(sub.Err, id.Err) {
 					v.bad("producer:data-before-exception-dropped:next",
 						fmt.Sprintf("the response held %d data batch(es) of completed turns before the exception; Next returned only the error", len(id.Data)), t.Idx)
 				}
@@ -568,7 +568,7 @@ func judge(h *History, rec *Record) *verdict {
 				if !queueFinished && !closed && !cancelled {
 					v.bad("producer:eos-while-cursor-outstanding", "Next reported end of stream although the last accepted response carried a continuation cursor", c.TripFrom)
 				}
-				if queueErr != nil {
+				if queueErr != nil && !cancelled && !closed {
 					v.bad("producer:exception-swallowed", "Next reported end of stream although the last response ended with an exception", c.TripFrom)
 				}
 				v.class("producer.eos")
@@ -600,7 +600,7 @@ func judge(h *History, rec *Record) *verdict {
 			}
 			cancelled = true
 			// batches of already accepted responses stay readable; only the continuation is gone
-			queueErr, queueFinished = nil, true
+			queueFinished = true
 		case "close":
 			closed = true
 			queue, queueErr = nil, nil
